@@ -12,6 +12,13 @@
 //        computed_constant, algebraic, external); the last field is "-" when there is no initialising variable.
 //        After vars= comes  eqs=<list>  with "type/nlaSystemIndex/var+var" per AnalyserEquation (model order).
 //     ISSUES parser=<n> validator=<n> analyser=<n> type=<analyser model type or -> first=<first issue description>
+//   Also written: <path>.dump, what the analyser hands to the generator (public getters only), one record per line:
+//     T <model type>
+//     S <index> <first equation position|->                      one per state, array order
+//     V <index> <type> <has initialising variable 0|1> <first equation position|->     one per variable, array order
+//     E <position> <type> <nla system index|-> <vars: kind:index,...> <deps: positions,...|-> <nla siblings: positions,...|-> <isStateRateBased 0|1>
+//     A <position> <TAB> <AST of the equation in prefix form: TYPE VAL left right, VAL = "-" or "=" text, "_" = null>
+//   (position = index in AnalyserModel::equations(); the AST is AnalyserEquation::ast() as analysed, i.e. after unit scaling)
 //   Only ERROR-level issues are counted for the analyser (unit warnings / messages do not make a model invalid);
 //   the count of analyser warnings is given on the OK line.
 //   Crashes / uncaught exceptions / hangs become CRASH(sig) / THROW(type) / TIMEOUT through forkrun.hpp.
@@ -75,6 +82,84 @@ static std::string varEntry(const libcellml::AnalyserVariablePtr &av)
            + (u ? u->name() : std::string("?")) + ":" + varName(av->initialisingVariable());
 }
 
+static std::string astLine(const libcellml::AnalyserEquationAstPtr &a)
+{
+    if (a == nullptr) {
+        return "_";
+    }
+    std::string t = libcellml::AnalyserEquationAst::typeAsString(a->type());
+    for (auto &c : t) {
+        c = char(toupper(c));
+    }
+    std::string val = "-";
+    if (a->type() == libcellml::AnalyserEquationAst::Type::CI) {
+        val = "=" + (a->variable() ? a->variable()->name() : std::string("?"));
+    } else if (a->type() == libcellml::AnalyserEquationAst::Type::CN) {
+        val = "=" + a->value();
+    }
+    return t + " " + val + " " + astLine(a->leftChild()) + " " + astLine(a->rightChild());
+}
+
+static std::string dumpModel(const libcellml::AnalyserModelPtr &am)
+{
+    std::ostringstream o;
+    auto eqs = am->equations();
+    auto posOf = [&](const libcellml::AnalyserEquationPtr &e) -> std::string {
+        for (size_t i = 0; i < eqs.size(); ++i) {
+            if (eqs[i] == e) {
+                return std::to_string(i);
+            }
+        }
+        return "-";
+    };
+    o << "T " << libcellml::AnalyserModel::typeAsString(am->type()) << "\n";
+    for (size_t i = 0; i < am->stateCount(); ++i) {
+        auto v = am->state(i);
+        o << "S " << v->index() << " " << (v->equationCount() > 0 ? posOf(v->equation(0)) : std::string("-")) << "\n";
+    }
+    for (size_t i = 0; i < am->variableCount(); ++i) {
+        auto v = am->variable(i);
+        o << "V " << v->index() << " " << libcellml::AnalyserVariable::typeAsString(v->type()) << " "
+          << (v->initialisingVariable() != nullptr ? 1 : 0) << " " << (v->equationCount() > 0 ? posOf(v->equation(0)) : std::string("-")) << "\n";
+    }
+    for (size_t i = 0; i < eqs.size(); ++i) {
+        auto e = eqs[i];
+        o << "E " << i << " " << libcellml::AnalyserEquation::typeAsString(e->type()) << " ";
+        if (e->type() == libcellml::AnalyserEquation::Type::NLA) {
+            o << e->nlaSystemIndex();
+        } else {
+            o << "-";
+        }
+        o << " ";
+        for (size_t j = 0; j < e->variableCount(); ++j) {
+            auto v = e->variable(j);
+            o << (j ? "," : "") << libcellml::AnalyserVariable::typeAsString(v->type()) << ":" << v->index();
+        }
+        if (e->variableCount() == 0) {
+            o << "-";
+        }
+        o << " ";
+        for (size_t j = 0; j < e->dependencyCount(); ++j) {
+            o << (j ? "," : "") << posOf(e->dependency(j));
+        }
+        if (e->dependencyCount() == 0) {
+            o << "-";
+        }
+        o << " ";
+        for (size_t j = 0; j < e->nlaSiblingCount(); ++j) {
+            o << (j ? "," : "") << posOf(e->nlaSibling(j));
+        }
+        if (e->nlaSiblingCount() == 0) {
+            o << "-";
+        }
+        o << " " << (e->isStateRateBased() ? 1 : 0) << "\n";
+    }
+    for (size_t i = 0; i < eqs.size(); ++i) {
+        o << "A " << i << "\t" << astLine(eqs[i]->ast()) << "\n";
+    }
+    return o.str();
+}
+
 static std::string genCase(const std::string &path)
 {
     auto text = slurp(path);
@@ -110,6 +195,8 @@ static std::string genCase(const std::string &path)
                + " type=" + atype + " first=" + clean(first);
     }
     auto am = analyser->model();
+
+    spit(path + ".dump", dumpModel(am));
 
     auto gen = libcellml::Generator::create();
     gen->setModel(am);
